@@ -200,6 +200,11 @@ class SolveGroupSwizzlerPartsel(object):
                 # so values of the range do not share a bit pattern
                 d_width += 1
     
+            if d_width > f.width:
+                # The inferred range may exceed what the field can hold; 
+                # there are no bits to force beyond its width
+                d_width = f.width
+    
             if self.debug > 0:
                 print("d_width: %d" % d_width)                
                 
